@@ -374,6 +374,18 @@ def _c03_7_rest(ctx):
         d = single_assign(fn, nm)
         if d is None or not (isinstance(d, ast.Call) and call_name(d) == 'df_reindex' and [U(a) for a in d.args[:2]] == [src, 'index'] and kw(d, 'method') is not None and U(kw(d, 'method')) == '_method'):
             ctx.fail(fn, fn.node, 'presync does not reindex %s onto the common index with the requested method' % src)
+    # DEF-USE: once aligned, only the aligned operands reach the wrapped function - positional ones from args_, keyword ones from kwargs_
+    fcalls = [c for c in ast.walk(fn.node) if isinstance(c, ast.Call) and U(c.func) == 'self.function']
+    ctx.at_least(5, len(fcalls), 'calls of the wrapped function in presync.wrapped')
+    for c in fcalls:
+        ctx.count(1, fn.where(c))
+        star = [a.value for a in c.args if isinstance(a, ast.Starred)]
+        dstar = [k.value for k in c.keywords if k.arg is None]
+        plain = [a for a in c.args if not isinstance(a, ast.Starred)] + [k.value for k in c.keywords if k.arg is not None]
+        rd = lambda es: {n.id for e in es for n in ast.walk(e) if isinstance(n, ast.Name)} & {'args', 'kwargs', 'args_', 'kwargs_'}
+        if len(star) != 1 or len(dstar) != 1 or rd(star) != {'args_'} or rd(dstar) != {'kwargs_'} or rd(plain):
+            ctx.fail(fn, c, 'the wrapped function is called with operands read from %s (positional) and %s (keyword): positional operands must come from the aligned args_ and keyword operands from the aligned kwargs_ only' % (
+                sorted(rd(star)) or 'nothing', sorted(rd(dstar)) or 'nothing'), witness='presync(f)(a, b=b_with_another_index): b reaches f unaligned')
 
 
 @obligation('C03.8', 'TABLES (guards by truth table)', '_pandas:_df_reindex, _df_recolumn, _df_index, _np_index',
